@@ -30,6 +30,21 @@ def check(tier, seed):
     for (s, mode, src, m, c, r, i), sig in zip(meta, refs):
         cases.append({'line': f"sign {s} {mode} {src} {hx(m)} {hx(c)} ok:{r.hex()}", 'tag': f'{mode} {src.split(":")[0]}',
                       'want': f"ok {sig.hex()} calls={'-' if mode == 'internal' else 'tryfill32'}", 'model': i < 5})
+    # hook level: the samplers of Algorithm 7 at the counter values a long rejection run would reach (kappa crossing byte
+    # boundaries, the u16 range end), compared with the bit-level reference
+    for s in fam.SETS:
+        p = R.PARAMS[s]
+        l = p['l']
+        rho = bytes(rng.randrange(256) for _ in range(64))
+        mus = sorted(set([0, 1, l, 255 - l, 256 - l, 255, 256, 257, 512 - l, 511, 512, 1000, 4096 - 1, 65535 - l]
+                         + [256 * j - i for j in (1, 2, 3) for i in range(0, l + 1)] + [rng.randrange(0, 65535 - l) for _ in range(4)]))
+        for mu in mus:
+            y = R.expand_mask(p, rho, mu)
+            cases.append({'line': f"expand_mask {s} {rho.hex()} {mu}", 'tag': 'expand_mask at counter boundaries', 'want': "|".join(",".join(str(c) for c in poly) for poly in y), 'model': mu in (0, 256 - 1, 256)})
+        for t in range(3):
+            ct = bytes(rng.randrange(256) for _ in range(p['lam'] // 4))
+            c = R.sample_in_ball(p, ct)
+            cases.append({'line': f"sample_in_ball 0 {p['tau']} {ct.hex()}", 'tag': 'sample_in_ball', 'want': ",".join(str(x) for x in c), 'model': t == 0})
     core.run_and_judge(rep, cases, model_every=0)
     return core.finish(rep, b, 'proof', {
         'rule': 'one case per (set, key, provenance, mode, message, context, rnd); messages of length 0, 1 and around the SHAKE rate edges, contexts of length 0, 1, 254, 255, '
